@@ -72,7 +72,9 @@ RULE = ('Per case: a generated tree of 2 top-level packages / 11 modules (siblin
         '1-file layouts, plus one name for two modules in two files, and a plain dotted import '
         'whose top-level name is bound to another module in another file, and fn / wfn in '
         'both orders of first use, and same-named leaf modules of sibling sub-packages by plain '
-        'imports in both orders, `import a.b as b`, an alias re-bound inside one file, and decorator-registered objects x parse variant; 106 cases) and every error '
+        'imports in both orders, `import a.b as b`, an alias re-bound inside one file, '
+        'decorator-registered objects x parse variant, scoped references before a method '
+        'binding, and a numbered variant of a colliding alias; 119 cases) and every error '
         'class x position (root / included / second root) x variant (108 cases).')
 ASSUMPTIONS = [
     '`from X import Y` is generated only where Y is a module or package (Gin implements every '
@@ -110,8 +112,10 @@ ASSUMPTIONS = [
     'state it): another order of sections (follows internal registry names; canonical order is '
     'C06) and another, equally valid spelling of a section are counted under '
     'reserialised-section-order-differs / reserialised-spelling-differs.',
-    'No inheritance between generated classes; no scopes, macros or gin.* builtins in the files '
-    '(covered by C04/C05/C09); aliases are never Python keywords.',
+    'No inheritance between generated classes; no macros or gin.* builtins in the files, and no '
+    'SCOPED bindings (covered by C04/C05/C09); references may carry a scope (`@s/sel()`, '
+    '`@s/t/sel`), which by the scope rules changes nothing about the delivered values since no '
+    'binding is scoped; aliases are never Python keywords.',
     'The input class "two different objects whose alias-substituted dotted names coincide" '
     '(known finding alias_collision) is excluded by construction (the alias is replaced by a '
     'unique one, counted under excluded:alias-collision) except in cases that carry keep=true.',
@@ -156,7 +160,7 @@ LEVEL_NOTE = ('Trusted: CPython import semantics in the oracle child, the 30-lin
               'only flags, imports, spellings and statements vary.')
 
 ENABLE = 'from __gin__ import dynamic_registration'
-ALIASES = ['mm', 'nn', 'm1', 'sub', '@top']   # '@top': the first top-level package's own name
+ALIASES = ['mm', 'nn', 'm1', 'sub', '@top', 'mm2', 'mm3']   # '@top': the first top-level package's own name
 LEAF_DEFS = ['fn', 'gn', 'K', 'K.meth', 'K.other', 'K.N', 'K.N.nm', 'cons', 'K.fn', 'wfn',
              'dfn', 'Deco', 'R', 'R.rm', 'Outer.Inner']
 REF_DEFS = ['fn', 'gn', 'K', 'K.N', 'wfn', 'dfn', 'Deco', 'R', 'Outer.Inner']
@@ -531,6 +535,10 @@ def _by_obj(table):
   return by
 
 
+# reference code in a case -> scope of the reference (codes 0/1: unscoped uncalled / called)
+_REF_SCOPES = {2: 's', 3: 's/t', 4: 's'}
+
+
 def _segment(imps, lines, names, root, cache):
   """One stretch of a file in which the set of executed imports is constant."""
   if lines not in cache:
@@ -610,7 +618,8 @@ def _resolve_files(case, names, root, renames, overrides, cache):
         tgt, tpath = pick(seg, imp_j, REF_DEFS[tdef_i % len(REF_DEFS)], tspell_i)
         info['stmts'].append({'kind': 'r', 'objid': holder, 'path': hpath, 'seg': seg,
                               'param': ('a', 'b')[param_i % 2], 'tobjid': tgt,
-                              'tpath': tpath, 'call': bool(call)})
+                              'tpath': tpath, 'call': call in (1, 2, 3, True),
+                              'scope': _REF_SCOPES.get(call, '')})
     files.append(info)
   return files
 
@@ -714,8 +723,9 @@ def _emitted_respelled(imports, binds, table):
     if table.get(sel) is None:
       continue
     st_ = {'kind': 'b', 'objid': table[sel], 'path': sel, 'seg': info}
-    if isinstance(val, tuple) and val and val[0] == 'ref' and table.get(val[1]) is not None:
-      st_.update(kind='r', tobjid=table[val[1]], tpath=val[1])
+    tsel = val[1].split('/')[-1] if isinstance(val, tuple) and val and val[0] == 'ref' else None
+    if tsel is not None and table.get(tsel) is not None:
+      st_.update(kind='r', tobjid=table[tsel], tpath=tsel)
     info['stmts'].append(st_)
   return _respelled([info], [(0, k) for k in range(len(info['stmts']))])
 
@@ -798,7 +808,9 @@ def _stmt_text(s):
     if s['blk']:
       return f"{s['path']}:\n  {s['param']} = {s['val']}\n"
     return f"{s['path']}.{s['param']} = {s['val']}"
-  return f"{s['path']}.{s['param']} = @{s['tpath']}{'()' if s['call'] else ''}"
+  scope = s.get('scope') or ''
+  return (f"{s['path']}.{s['param']} = @{scope + '/' if scope else ''}{s['tpath']}"
+          f"{'()' if s['call'] else ''}")
 
 
 def _file_lines(info, items, paths):
@@ -849,7 +861,7 @@ def _expect_val(model, objid, param):
     return _DEFAULTS[param]
   if spec[0] == 'int':
     return spec[1]
-  _, tgt, call = spec
+  _, tgt, call = spec[:3]     # the scope changes nothing: no binding is scoped
   if call:
     return _expect_call(model, tgt)
   return {'callable': True, 'call': _expect_call(model, tgt)}
@@ -1082,6 +1094,7 @@ def _check(case, root):
   model = {}
   spellings = {}
   first_ref = {}      # class objid -> file of the first @K reference to it
+  scoped_ref = set()  # classes referenced through a scoped reference so far
   method_after_ref = False
   method_after_ref_other_file = False
   for fi, k in order:
@@ -1091,14 +1104,18 @@ def _check(case, root):
       model[(s['objid'], s['param'])] = ('int', s['val'])
       if _is_method(s['objid']):
         cls = _class_of(s['objid'])
+        if cls in scoped_ref:
+          labels.add('method-after-scoped-reference')
         if cls in first_ref:
           method_after_ref = True
           if first_ref[cls] != fi:
             method_after_ref_other_file = True
     else:
-      model[(s['objid'], s['param'])] = ('ref', s['tobjid'], s['call'])
+      model[(s['objid'], s['param'])] = ('ref', s['tobjid'], s['call'], s.get('scope') or '')
       spellings.setdefault(s['tobjid'], set()).add(s['tpath'])
       first_ref.setdefault(s['tobjid'], fi)
+      if s.get('scope'):
+        scoped_ref.add(s['tobjid'])
   watch = sorted({o for o, _ in model} |
                  {spec[1] for spec in model.values() if spec[0] == 'ref'} |
                  {_class_of(o) for o, _ in model if _is_method(o)})
@@ -1145,6 +1162,8 @@ def _check(case, root):
     for s in info['stmts']:
       if s['kind'] == 'r':
         labels.add('ref-called' if s['call'] else 'ref-uncalled')
+        if s.get('scope'):
+          labels.add('ref-scoped')
       elif s['blk']:
         labels.add('block-syntax')
       for key in ('path', 'tpath'):
@@ -1223,11 +1242,12 @@ def _denotes(text, tag, ctx):
             lambda: f'{sel!r} does not resolve in a fresh interpreter given the emitted '
                     f'imports\n{text}\nfiles:\n{_dump(texts)}')
     if isinstance(val, tuple) and val and val[0] == 'ref':
-      selectors.append(val[1])
-      tgt = et['table'].get(val[1])
+      *vscope, vsel = val[1].split('/')
+      selectors.append(vsel)
+      tgt = et['table'].get(vsel)
       require(tgt is not None, tag + '-selector-unresolvable',
               lambda: f'reference {val!r} does not resolve\n{text}\nfiles:\n{_dump(texts)}')
-      v = ('ref', tgt, val[2])
+      v = ('ref', tgt, val[2], '/'.join(vscope))
     elif isinstance(val, int) and not isinstance(val, bool):
       v = ('int', val)
     else:
@@ -1393,7 +1413,7 @@ def _case(draw):
                    st.sampled_from([0, 0, 0, 1])).map(list)
   ref = st.tuples(st.just('r'), imp_i, _small, st.integers(0, 1), imp_i,
                   st.sampled_from([0, 1, 2, 2, 2, 3, 4, 5, 6, 7, 8]), _small,
-                  st.sampled_from([1, 1, 0])).map(list)
+                  st.sampled_from([1, 1, 0, 2, 2, 3, 4])).map(list)
   stmt = st.one_of(bind, bind, ref)
   nfiles = draw(st.sampled_from([1, 2, 2, 3, 3, 4]))
   files = []
@@ -1448,6 +1468,24 @@ def _sweep_forms(tier):
                           ['b', 0, 6, 0, 1, 24, 0], ['b', 0, 7, 0, 1, 25, 1]]}
       cases.append({'pkg': {'init': [False] * 3, 'reexp': 0}, 'files': [single],
                     'error': None, 'keep': False})
+  # a class first referenced through a SCOPED reference, then one of its methods configured
+  for mod, form in ((1, 0), (1, 3), (4, 2)):
+    for code in (2, 3, 4):
+      stmts = [['r', 0, 0, 0, 0, 2, 0, code], ['b', 0, 2, 0, 1, 101, 0], ['b', 0, 3, 0, 0, 102, 0],
+               ['r', 0, 0, 1, 0, 3, 0, code], ['b', 0, 6, 0, 1, 103, 0], ['b', 0, 8, 0, 0, 104, 0]]
+      cases.append({'pkg': {'init': [False] * 3, 'reexp': 0},
+                    'files': [{'parent': None, 'at': 0, 'str': code == 3,
+                               'imports': [[mod, form, 0]], 'stmts': stmts}],
+                    'error': None, 'keep': False})
+  # one bound name used by two files plus a NUMBERED variant of it by a third import
+  for form in (1, 3):
+    for numbered in (6, 5):          # 'mm3' / 'mm2'
+      fs = []
+      for mod, alias in ((1, 0), (2, numbered), (5, 0), (7, 0)):
+        fs.append({'parent': None, 'at': 0, 'str': False, 'imports': [[mod, form, alias]],
+                   'stmts': [['b', 0, 0, 0, 0, 110 + mod, 0], ['b', 0, 2, 0, 1, 120 + mod, 0]]})
+      cases.append({'pkg': {'init': [False] * 3, 'reexp': 0}, 'files': fs, 'error': None,
+                    'keep': False})
   # decorator-registered objects (custom Gin name, registered method, nested class) configured by
   # their Python path; and every parse variant of a root (file / string / list of statements)
   for mod, form in ((1, 0), (1, 3), (4, 2), (0, 1)):
